@@ -116,6 +116,9 @@ def install_fs(h, canon_of):
     R(r'(?:abstract_syntax_tree::)?(?:ast::)?Meta::file_location', lambda ex, a, m: Opaque('loc', deref(a[0])))
 
 
+def tier_of(task): return task.get('tier', 'quick')
+
+
 INCLUDES = ['x.circom', './y.circom']      # the (at most two) include statements a file may hold
 
 
@@ -143,6 +146,7 @@ def tasks(tier):
     if tier == 'thorough':
         for first in range(1, NF): ts += split(1, 'none', first)
         for first in range(0, NF): ts += split(2, 'none', first) + split(1, 'dir', first)
+    for t in ts: t['tier'] = tier
     return ts
 
 
@@ -276,7 +280,17 @@ def run_task(task):
             ex.notes['incl'][k] = cnt
             return ok(ir.S('AST', meta=Opaque('meta'), compiler_version=none(), custom_gates=False, custom_gates_declared=False, includes=VecV(incs), definitions=VecV([]), main_component=none()))
         R(r'(?:parser_logic::)parse_file', parse_stub)
-        R(r'(?:parser::)?check_compiler_version', lambda ex, a, m: ok(VecV([])))
+        # the version check of a file may fail (unsupported pragma): its includes are followed all the same
+        verr = [z3.Bool('version_error_f%d' % k) for k in range(NF)]
+        for k, v in enumerate(verr):
+            h.inputs['version_error_f%d' % k] = v
+            if tier_of(task) != 'thorough' and k != max(task['first'], 0): base.append(z3.Not(v))
+
+        def version_stub(ex, a, m):
+            k = ex.notes['reads'][-1]
+            if ex.decide(verr[k]): return err(BoxV(Opaque('report', 'version')))
+            return ok(VecV([]))
+        R(r'(?:parser::)?check_compiler_version', version_stub)
 
         def entry(ex):
             ex.notes.update(reads=[], added=[], incl={}, include_errors=[], iterations=0)
@@ -401,7 +415,7 @@ def confirm(task, v):
             for k in range(NF):
                 os.makedirs(os.path.join(d, 'd%d' % k))
                 nk = m.get('includes_of_f%d' % k, 0)
-                body = 'pragma circom 2.0.0;\n' + ''.join('include "%s";\n' % INCLUDES[j] for j in range(nk)) + 'template T%d() { signal input a; signal output b; b <== a; }\n' % k
+                body = ('pragma circom 9.9.9;\n' if m.get('version_error_f%d' % k) else 'pragma circom 2.0.0;\n') + ''.join('include "%s";\n' % INCLUDES[j] for j in range(nk)) + 'template T%d() { signal input a; signal output b; b <== a; }\n' % k
                 open(os.path.join(d, 'd%d' % k, 'f%d.circom' % k), 'w').write(body)
             def target(key):
                 t = m.get('canon(%s)' % key)
@@ -422,7 +436,14 @@ def confirm(task, v):
             analysed = sorted(set(int(x) for x in re.findall(r"analyzing template 'T(\d)'", out)))
             want = (v.get('extra') or {}).get('reads')
             dup = len(set(reads)) != len(reads)
-            return (dup or 'panicked' in out) if v['kind'] in ('once', 'terminates') else None, {'reads': reads, 'analysed templates': analysed, 'exit': r.returncode}, {'each file read once': True}
+            obs = {'reads': reads, 'analysed templates': analysed, 'exit': r.returncode}
+            if v['kind'] in ('once', 'terminates'): return (dup or 'panicked' in out), obs, {'each file read once': True}
+            mm = re.search(r'reachable (\[[0-9, ]*\])\)', v.get('msg', ''))
+            if v['kind'] == 'reachable' and mm:
+                import ast as _ast
+                want = sorted(_ast.literal_eval(mm.group(1)))
+                return sorted(set(reads)) != want, obs, {'files read': want}
+            return None, obs, None
         if part == 'new':
             rc, out = realbin.run([os.path.join(d, 'missing.circom')], d)
             return rc != 1 or 'error' not in out, {'exit': rc, 'out': out[-200:]}, {'exit': 1, 'an error': True}
